@@ -857,6 +857,53 @@ func (k *checker) verifyState(when string, deadIDs []string, deadTags []string) 
 			}
 		}
 	}
+	// per label: every record of a successful upload is found through each of its labels
+	// (the index has one row per record and label, written in batches)
+	for _, u := range k.model {
+		byLabel := map[[2]string][]string{}
+		for i, f := range u.files {
+			for _, r := range f.recs {
+				l := map[string]string{"upload": u.id, "upload-part": f.id, "upload-time": "*"}
+				for kk, vv := range r.labels {
+					l[kk] = vv
+				}
+				if f.name != "" {
+					l["upload-file"] = f.name
+				}
+				if k.c.User != "" {
+					l["by"] = k.c.User
+				}
+				line := canonLabels(l) + " | " + r.line
+				for kk, vv := range l {
+					if kk == "upload-time" || kk == "upload" || vv == "" || strings.ContainsAny(vv, "\"\\") {
+						continue
+					}
+					byLabel[[2]string{kk, vv}] = append(byLabel[[2]string{kk, vv}], line)
+				}
+			}
+			_ = i
+		}
+		var lks [][2]string
+		for lk := range byLabel {
+			lks = append(lks, lk)
+		}
+		sort.Slice(lks, func(a, b int) bool { return lks[a][0]+"\x00"+lks[a][1] < lks[b][0]+"\x00"+lks[b][1] })
+		for _, lk := range lks {
+			want := byLabel[lk]
+			sort.Strings(want)
+			term := lk[0] + ":" + lk[1]
+			if strings.ContainsAny(term, " \t") {
+				term = "\"" + term + "\""
+			}
+			if d := diff(k.query("upload:"+u.id+" "+term, times), want); d != "" {
+				k.v.Failf("%s: query upload:%s %s: %s", when, u.id, term, d)
+				return
+			}
+		}
+		if len(lks) > 40 {
+			k.v.Label("queried_by_more_than_40_labels")
+		}
+	}
 	for _, id := range deadIDs {
 		if got := k.query("upload:"+id, times); len(got) != 0 {
 			k.v.Failf("%s: failed upload %s still has %d queryable records: %q", when, id, len(got), got)
